@@ -900,3 +900,151 @@ pub fn run_ops(data: &[u8], ctx: &mut Ctx) -> CaseResult {
 
 #[allow(dead_code)]
 fn _assert_types(_: Chain<RelativeName<Vec<u8>>, Name<Vec<u8>>>) {}
+
+//------------ suffix / prefix tests with label-boundary look-alikes -------------------
+
+/// Label-wise, ASCII-case-insensitive suffix test on label vectors.
+fn model_ends_with(labels: &[Vec<u8>], sfx: &[Vec<u8>]) -> bool {
+    labels.len() >= sfx.len() && labels[labels.len() - sfx.len()..].iter().zip(sfx).all(|(a, b)| a.eq_ignore_ascii_case(b))
+}
+fn model_starts_with(labels: &[Vec<u8>], pfx: &[Vec<u8>]) -> bool {
+    labels.len() >= pfx.len() && labels[..pfx.len()].iter().zip(pfx).all(|(a, b)| a.eq_ignore_ascii_case(b))
+}
+
+/// `strip_suffix`, `ends_with`, `starts_with` on names whose label CONTENT
+/// embeds the wire form of the suffix (`<len><label>...`), so that an octet
+/// comparison and a label-wise comparison disagree. The suffix is passed as an
+/// owned name type, as a `&Name<[u8]>`-style reference and as a Chain.
+pub fn run_suffix(data: &[u8], ctx: &mut Ctx) -> CaseResult {
+    let mut u = Unstructured::new(data);
+    // the suffix: 1..=3 short labels
+    let ns = 1 + pick(&mut u, 3);
+    let sfx: Vec<Vec<u8>> = (0..ns).map(|_| { let n = 1 + pick(&mut u, 7); (0..n).map(|_| gn::label_byte(&mut u, true)).collect() }).collect();
+    let sw = wire_rel(&sfx);
+    // the front part
+    let np = pick(&mut u, 4);
+    let mut labels: Vec<Vec<u8>> = (0..np).map(|_| { let n = 1 + pick(&mut u, 6); fill(&mut u, n) }).collect();
+    let mode = pick(&mut u, 8);
+    let swap = |u: &mut Unstructured, l: &Vec<u8>| -> Vec<u8> { l.iter().map(|&b| if b.is_ascii_alphabetic() && flag(u) { b ^ 0x20 } else { b }).collect() };
+    let what = match mode {
+        0 | 1 => {
+            // a real suffix, possibly in another case
+            for l in &sfx { let x = swap(&mut u, l); labels.push(x); }
+            "real-suffix"
+        }
+        2..=5 => {
+            // look-alike: the first j suffix labels sit, in wire form, at the end
+            // of the CONTENT of one label; the remaining suffix labels follow
+            let j = 1 + pick(&mut u, ns);
+            let junk_n = pick(&mut u, 4);
+            let mut content = fill(&mut u, junk_n);
+            let emb = wire_rel(&sfx[..j]);
+            let emb = if flag(&mut u) { emb } else { swap(&mut u, &emb) };
+            content.extend_from_slice(&emb);
+            if content.len() > 63 { content.truncate(63); }
+            labels.push(content);
+            for l in &sfx[j..] { let x = swap(&mut u, l); labels.push(x); }
+            "look-alike"
+        }
+        6 => {
+            // a name that is shorter than / equal to the suffix
+            labels = sfx[pick(&mut u, ns)..].to_vec();
+            "tail-of-suffix"
+        }
+        _ => {
+            let n = 1 + pick(&mut u, 5);
+            labels.push(fill(&mut u, n));
+            "unrelated"
+        }
+    };
+    let rel = wire_rel(&labels);
+    let abs = wire_abs(&labels);
+    let want = model_ends_with(&labels, &sfx);
+    let octet_match = rel.len() >= sw.len() && rel[rel.len() - sw.len()..].eq_ignore_ascii_case(&sw);
+    ctx.class(format!("suffix:{what}:{}", if want { "is-suffix" } else { "not-suffix" }));
+    if octet_match && !want {
+        ctx.class("suffix:octets-match-but-labels-do-not");
+        ctx.nontrivial(&(&rel, &sw));
+    } else if want && labels.len() > sfx.len() {
+        ctx.nontrivial(&(&rel, &sw, 1u8));
+    }
+    ctx.sample(|| format!("{what}: name {} suffix {} label-wise suffix={want} octet-wise={octet_match}", gn::show(&labels), gn::show(&sfx)));
+    let cut = if want { wire_rel(&labels[..labels.len() - sfx.len()]) } else { rel.clone() };
+
+    let mk_rel = |w: &[u8]| RelativeName::from_octets(w.to_vec()).map_err(|e| Violation::new("relative-from_octets:rejected-valid-name", e.to_string()));
+    let mk_abs = |w: &[u8]| Name::from_octets(w.to_vec()).map_err(|e| Violation::new("name-from_octets:rejected-valid-name", e.to_string()));
+    let name_rel = mk_rel(&rel)?;
+    let name_abs = mk_abs(&abs)?;
+    let sfx_rel: RelativeName<Vec<u8>> = mk_rel(&sw)?;
+    let sfx_abs: Name<Vec<u8>> = mk_abs(&wire_abs(&sfx))?;
+    let sfx_rel_bytes = RelativeName::from_octets(Bytes::from(sw.clone())).unwrap();
+    let sfx_rel_slice: &RelativeName<[u8]> = RelativeName::from_slice(&sw).unwrap();
+    let sfx_abs_slice: &Name<[u8]> = Name::from_slice(sfx_abs.as_slice()).unwrap();
+
+    macro_rules! judge_rel {
+        ($entry:expr, $t:expr, $r:expr) => {{
+            let t = $t;
+            check_value($entry, Kind::Rel, t.as_slice())?;
+            match $r {
+                Ok(()) => {
+                    vensure!(want, format!("{}:stripped-a-non-suffix", $entry), "{} cut {} by suffix {} although it is no label-wise suffix; left {}", $entry, hexs_raw(&rel), hexs_raw(&sw), hexs_raw(t.as_slice()));
+                    vensure!(t.as_slice() == &cut[..], format!("{}:wrong-octets", $entry), "{} left {} want {}", $entry, hexs_raw(t.as_slice()), hexs_raw(&cut));
+                }
+                Err(_) => {
+                    vensure!(!want, format!("{}:rejected-real-suffix", $entry), "{} refused suffix {} of {}", $entry, hexs_raw(&sw), hexs_raw(&rel));
+                    vensure!(t.as_slice() == &rel[..], format!("{}:failed-call-changed-name", $entry), "{} failed but changed the name to {}", $entry, hexs_raw(t.as_slice()));
+                }
+            }
+        }};
+    }
+    // RelativeName::strip_suffix(&mut self, &N): N owned Vec / owned Bytes / reference type / chain
+    let mut t = name_rel.clone();
+    let r = t.strip_suffix(&sfx_rel).map_err(|_| ());
+    judge_rel!("relative-strip_suffix", &t, r);
+    let mut t = RelativeName::from_octets(Bytes::from(rel.clone())).unwrap();
+    let r = t.strip_suffix(&sfx_rel_bytes).map_err(|_| ());
+    judge_rel!("relative-strip_suffix", &t, r);
+    let mut t = name_rel.clone();
+    let r = t.strip_suffix(&sfx_rel_slice).map_err(|_| ());
+    judge_rel!("relative-strip_suffix", &t, r);
+    if ns >= 2 {
+        let ch = mk_rel(&wire_rel(&sfx[..1]))?.chain(mk_rel(&wire_rel(&sfx[1..]))?).map_err(|_| Violation::new("chain:rejected-valid-name", "short chain refused"))?;
+        let mut t = name_rel.clone();
+        let r = t.strip_suffix(&ch).map_err(|_| ());
+        judge_rel!("relative-strip_suffix", &t, r);
+    }
+    // Name::strip_suffix(self, &N) -> Result<RelativeName, Self>
+    for k in 0..2 {
+        let res = if k == 0 { name_abs.clone().strip_suffix(&sfx_abs) } else { name_abs.clone().strip_suffix(&sfx_abs_slice) };
+        match res {
+            Ok(t) => {
+                check_value("name-strip_suffix", Kind::Rel, t.as_slice())?;
+                vensure!(want, "name-strip_suffix:stripped-a-non-suffix", "cut {} by suffix {} although it is no label-wise suffix; left {}", hexs_raw(&abs), hexs_raw(sfx_abs.as_slice()), hexs_raw(t.as_slice()));
+                vensure!(t.as_slice() == &cut[..], "name-strip_suffix:wrong-octets", "left {} want {}", hexs_raw(t.as_slice()), hexs_raw(&cut));
+            }
+            Err(n) => {
+                vensure!(!want, "name-strip_suffix:rejected-real-suffix", "refused suffix {} of {}", hexs_raw(sfx_abs.as_slice()), hexs_raw(&abs));
+                vensure!(n.as_slice() == &abs[..], "name-strip_suffix:failed-call-changed-name", "failed but returned {}", hexs_raw(n.as_slice()));
+            }
+        }
+    }
+    // ends_with / starts_with agree with the label-wise model
+    vensure!(name_rel.ends_with(&sfx_rel) == want, "relative-ends_with:differs-from-label-wise-test", "{} ends_with {} = {}", hexs_raw(&rel), hexs_raw(&sw), !want);
+    vensure!(name_rel.ends_with(&sfx_rel_slice) == want, "relative-ends_with:differs-from-label-wise-test", "{} ends_with(&slice) {} = {}", hexs_raw(&rel), hexs_raw(&sw), !want);
+    vensure!(name_abs.ends_with(&sfx_abs) == want, "name-ends_with:differs-from-label-wise-test", "{} ends_with {} = {}", hexs_raw(&abs), hexs_raw(sfx_abs.as_slice()), !want);
+    vensure!(name_abs.ends_with(&sfx_abs_slice) == want, "name-ends_with:differs-from-label-wise-test", "{} ends_with(&slice) {}", hexs_raw(&abs), hexs_raw(sfx_abs.as_slice()));
+    // prefix side: the first suffix label(s) as a prefix candidate of the name
+    let pfx: Vec<Vec<u8>> = if labels.is_empty() || flag(&mut u) { sfx[..1].to_vec() } else {
+        // a look-alike prefix: the first label cut short, or its content
+        // followed by the wire form of the second label
+        let mut p = labels[0].clone();
+        match pick(&mut u, 3) { 0 => { p.pop(); } 1 => {} _ => { if labels.len() > 1 { p.push(labels[1].len() as u8); p.extend_from_slice(&labels[1]); p.truncate(63); } } }
+        if p.is_empty() { p.push(b'a'); }
+        vec![swap(&mut u, &p)]
+    };
+    let pw = mk_rel(&wire_rel(&pfx))?;
+    let wantp = model_starts_with(&labels, &pfx);
+    vensure!(name_rel.starts_with(&pw) == wantp, "relative-starts_with:differs-from-label-wise-test", "{} starts_with {} = {}", hexs_raw(&rel), hexs_raw(pw.as_slice()), !wantp);
+    vensure!(name_abs.starts_with(&pw) == wantp, "name-starts_with:differs-from-label-wise-test", "{} starts_with {} = {}", hexs_raw(&abs), hexs_raw(pw.as_slice()), !wantp);
+    Ok(())
+}
